@@ -72,6 +72,11 @@ def cases(tier: str, seed: int) -> List[Dict[str, Any]]:
         for which in ("residual_split", "two_scale_bwd", "split_and_value"):
             for dt in ("float32", "float64"):
                 out.append({"kind": "multi_out", "which": which, "backend": be, "dtype": dt, "seed": seed})
+        if be == "aot_eager":
+            for fn in ("softmax", "softmax_mult", "linear_bias", "linear_unconstrained", "linear_readout", "gelu", "silu_glu", "matmul",
+                       "layer_norm", "residual"):
+                for dt, n in (("float32", 4096), ("float32", 256), ("bfloat16", 256), ("float64", 4096), ("float16", 1024)):
+                    out.append({"kind": "fx_big", "fn": fn, "dtype": dt, "n": n, "backend": be, "seed": seed})
         for c in comps:
             out.append({"kind": "comp", "ops": c, "backend": be, "dtype": "float32" if len(c) % 2 == 0 else "float64", "seed": seed})
     return out
@@ -138,6 +143,10 @@ def _module(name: str, dtype: Any) -> Any:
         "DepthSequential": (lambda: uu.DepthSequential(uu.Linear(8, 8), uu.GELU(), uu.Linear(8, 8, constraint=None)), (x3,)),
     }[name]
     m = mk[0]().to(dtype)
+    with torch.no_grad():  # biases are zero-initialised: give them values, or a dropped bias goes unseen
+        for n_, p_ in m.named_parameters():
+            if "bias" in n_ or not bool((p_ != 0).any()):
+                p_.copy_((torch.randn(p_.shape, generator=g, dtype=torch.float64) * 0.5).to(dtype))
     return m, mk[1]
 
 
@@ -233,8 +242,37 @@ def run_case(case: Dict[str, Any]) -> Dict[str, Any]:
                     break
         if what:
             viol.append({"key": ident + f"|compiled_differs|{what.split('[')[0]}", "msg": f"cfg={cfg}: {what} differs from eager"})
-        return {"violations": viol, "steps": 2, "nontrivial": graphs[0] > 0,
-                "outcome": f"{be_name}:graphs={'0' if graphs[0] == 0 else '>0'}"}
+        # plain fx symbolic tracing of the function reproduces the forward value: the traced graph runs the
+        # same tensor operations on the same values, so agreement is demanded to 4 ulp of the dtype
+        fxs = "untraceable"
+        if be_name == "aot_eager":
+            from torch import fx
+
+            argn = [f"a{i}" for i in range(len(names))]
+            fsrc = (f"class FxWrap(torch.nn.Module):\n    def forward(self, {', '.join(argn)}):\n"
+                    f"        return op.unit(dict(zip(names, [{', '.join(argn)}])), cfg)\n")
+            ns3: Dict[str, Any] = {"op": op, "names": names, "cfg": cfg, "torch": torch}
+            exec(compile(fsrc, f"<c20fx-{abs(hash(repr(cfg))) % 10**8}>", "exec"), ns3)
+            try:
+                gm = fx.symbolic_trace(ns3["FxWrap"]())
+            except Exception:  # noqa - not symbolically traceable (data-dependent control flow): outside the clause
+                gm = None
+            if gm is not None:
+                fxs = "traced"
+                try:
+                    torch.manual_seed(3)
+                    yf = gm(*[t0[k].detach().clone() for k in names])
+                    yf = yf[0] if isinstance(yf, tuple) else yf
+                    ftol = 4 * torch.finfo(ye.dtype).eps if ye.is_floating_point() else 0.0
+                    if op.name == "rms_norm" and cfg["dtype"] == "float64":
+                        ftol = 5e-6
+                    if not _close(yf.detach(), ye, ftol):
+                        viol.append({"key": f"fn|fx|{op.name}|dtype={cfg['dtype']}|dev={'+'.join(dev) or 'none'}|fx_forward_differs",
+                                     "msg": f"cfg={cfg}: max err {(yf.detach().double() - ye.double()).abs().max().item():.3e}"})
+                except Exception as e:  # noqa
+                    viol.append(exception_violation(e, f"fn|fx|{op.name}|traced_graph"))
+        return {"violations": viol, "steps": 3, "nontrivial": graphs[0] > 0,
+                "outcome": f"{be_name}:graphs={'0' if graphs[0] == 0 else '>0'}:fx={fxs}"}
 
     if case["kind"] == "module":
         dtype = tdtype(case["dtype"])
@@ -285,6 +323,49 @@ def run_case(case: Dict[str, Any]) -> Dict[str, Any]:
         except Exception:  # noqa - not symbolically traceable (einops / data-dependent control flow): outside the clause
             pass
         return {"violations": viol, "steps": 3, "nontrivial": graphs[0] > 0, "outcome": f"{be_name}:module"}
+
+    if case["kind"] == "fx_big":
+        # plain fx tracing at sizes where forward and backward factors are far apart (fan-in / softmax width 4096)
+        import unit_scaling.functional as U
+        from torch import fx
+
+        dtype = tdtype(case["dtype"])
+        n = case["n"]
+        ident = f"fx_big|{case['fn']}|dtype={case['dtype']}"
+        g = torch.Generator().manual_seed(5)
+        x0 = torch.randn(3, n, generator=g, dtype=torch.float64).to(dtype)
+        W = (torch.randn(7, n, generator=g, dtype=torch.float64)).to(dtype)
+        b = torch.randn(7, generator=g, dtype=torch.float64).to(dtype)
+        fn = {
+            "softmax": lambda x: U.softmax(x, dim=-1),
+            "softmax_mult": lambda x: U.softmax(x, dim=-1, mult=0.5, constraint=None),
+            "linear_bias": lambda x: U.linear(x, W, b),
+            "linear_unconstrained": lambda x: U.linear(x, W, None, constraint=None),
+            "linear_readout": lambda x: U.linear_readout(x, W, b),
+            "gelu": lambda x: U.gelu(x),
+            "silu_glu": lambda x: U.silu_glu(x, x * 0.5),
+            "matmul": lambda x: U.matmul(x, W.t()),
+            "layer_norm": lambda x: U.layer_norm(x, (n,)),
+            "residual": lambda x: U.residual_add(*reversed(U.residual_split(x, 0.3))),
+        }[case["fn"]]
+
+        class WrapBig(torch.nn.Module):
+            def forward(self, x: Any) -> Any:
+                return fn(x)
+
+        try:
+            ye = fn(x0)
+        except Exception as e:  # noqa
+            return {"violations": [exception_violation(e, ident)], "outcome": "raises"}
+        try:
+            gm = fx.symbolic_trace(WrapBig())
+        except Exception:  # noqa - not symbolically traceable: outside the clause
+            return {"violations": [], "steps": 1, "nontrivial": False, "outcome": "fx_big:untraceable"}
+        yf = gm(x0)
+        if not _close(yf, ye, 4 * torch.finfo(dtype).eps):
+            viol.append({"key": ident + "|fx_forward_differs", "msg": f"n={n}: max err {(yf.double() - ye.double()).abs().max().item():.3e} "
+                         f"(max |y| {ye.double().abs().max().item():.3e})"})
+        return {"violations": viol, "steps": 2, "nontrivial": True, "outcome": "fx_big:traced"}
 
     if case["kind"] == "multi_out":
         import unit_scaling.functional as U
